@@ -64,6 +64,10 @@ TARGETS = [
         ("Validator", "set_next_counterparty_commit_num", "C03", "C03_fn_validator_set_next_counterparty_commit_num", "filter"),
         ("Validator", "set_next_counterparty_revoke_num", "C03", "C03_fn_validator_set_next_counterparty_revoke_num", "filter"),
     ]),
+    dict(area="EnforceNew", rel="vls-core/src/policy/validator.rs", consts=[], externals={}, fns=[
+        # the state a channel starts from (all 13 fields; own area so that the 9-field structure of `Enforce` stays as it is)
+        ("EnforcementState", "new", "C01", "C01_fn_enforcement_state_new"),
+    ]),
     dict(area="SimpleState", rel="vls-core/src/policy/simple_validator.rs", consts=["vls-core/src/policy/mod.rs"],
          structs=["vls-core/src/policy/validator.rs"],
          # logging-only macros of the file (dropped like debug!; `scoped_debug_return!` yields a guard object that only
